@@ -758,3 +758,21 @@ func readOnlyTable(w *World, pkg *packages.Package, obj types.Object) (*ast.Comp
 	}
 	return lit, ""
 }
+
+// structuralTypeStr renders a type with named function types replaced by their signatures (a named func type is an
+// interchangeable spelling of the signature): []argConverterFunc reads as []func(*variable.Value) (reflect.Value, error).
+func structuralTypeStr(t types.Type) string {
+	switch x := t.(type) {
+	case *types.Slice:
+		return "[]" + structuralTypeStr(x.Elem())
+	case *types.Map:
+		return "map[" + typeStr(x.Key()) + "]" + structuralTypeStr(x.Elem())
+	case *types.Named:
+		if _, isSig := x.Underlying().(*types.Signature); isSig {
+			return typeStr(x.Underlying())
+		}
+	case *types.Alias:
+		return structuralTypeStr(types.Unalias(x))
+	}
+	return typeStr(t)
+}
